@@ -8,3 +8,5 @@ for c in "$@"; do
 done
 git -C /repo checkout -- .
 git -C /repo status --short | head -3
+# evidence written while the seeded change was applied describes the changed tree: restore the committed files
+git -C /verif checkout -- evidence
